@@ -1,0 +1,244 @@
+//go:build verif
+
+package rueidis
+
+// Verification hooks for the blocking pool (pool.go). Compiled only with
+// `-tags verif`; nothing here changes the behaviour of the package.
+
+import (
+	"context"
+	"errors"
+	"reflect"
+	"strconv"
+	"sync"
+	"sync/atomic"
+	"time"
+	"unsafe"
+)
+
+// VerifWire is a scripted mock wire: the pool only looks at Error, Close,
+// StopTimer and ResetTimer.
+type VerifWire struct {
+	mu      sync.Mutex
+	err     error
+	ID      int
+	closes  int
+	resets  int
+	expired bool // StopTimer reports false (lifetime timer already fired)
+}
+
+// VerifNewWire makes a mock wire; err != nil makes it report that error from the start.
+func VerifNewWire(id int, err error, expired bool) *VerifWire {
+	return &VerifWire{ID: id, err: err, expired: expired}
+}
+
+func (w *VerifWire) Do(ctx context.Context, cmd Completed) RedisResult { return RedisResult{} }
+func (w *VerifWire) DoCache(ctx context.Context, cmd Cacheable, ttl time.Duration) RedisResult {
+	return RedisResult{}
+}
+func (w *VerifWire) DoMulti(ctx context.Context, multi ...Completed) *redisresults { return nil }
+func (w *VerifWire) DoMultiCache(ctx context.Context, multi ...CacheableTTL) *redisresults {
+	return nil
+}
+func (w *VerifWire) Receive(ctx context.Context, subscribe Completed, fn func(message PubSubMessage)) error {
+	return nil
+}
+func (w *VerifWire) DoStream(ctx context.Context, pool *pool, cmd Completed) RedisResultStream {
+	return RedisResultStream{}
+}
+func (w *VerifWire) DoMultiStream(ctx context.Context, pool *pool, multi ...Completed) MultiRedisResultStream {
+	return MultiRedisResultStream{}
+}
+func (w *VerifWire) Info() map[string]RedisMessage { return nil }
+func (w *VerifWire) Version() int                  { return 0 }
+func (w *VerifWire) AZ() string                    { return "" }
+func (w *VerifWire) CleanSubscriptions()           {}
+func (w *VerifWire) SetPubSubHooks(hooks PubSubHooks) <-chan error {
+	return nil
+}
+func (w *VerifWire) GetPubSubHooks() PubSubHooks   { return PubSubHooks{} }
+func (w *VerifWire) SetOnCloseHook(fn func(error)) {}
+
+func (w *VerifWire) Error() error {
+	w.mu.Lock()
+	defer w.mu.Unlock()
+	return w.err
+}
+
+func (w *VerifWire) Close() {
+	w.mu.Lock()
+	defer w.mu.Unlock()
+	w.closes++
+	if w.err == nil {
+		w.err = ErrClosing
+	}
+}
+
+func (w *VerifWire) StopTimer() bool {
+	w.mu.Lock()
+	defer w.mu.Unlock()
+	return !w.expired
+}
+
+func (w *VerifWire) ResetTimer() bool {
+	w.mu.Lock()
+	defer w.mu.Unlock()
+	w.resets++
+	return true
+}
+
+// Break makes the wire report err from now on (without closing it).
+func (w *VerifWire) Break(err error) {
+	w.mu.Lock()
+	defer w.mu.Unlock()
+	if w.err == nil {
+		w.err = err
+	}
+}
+
+// Expire makes StopTimer report false from now on.
+func (w *VerifWire) Expire() {
+	w.mu.Lock()
+	defer w.mu.Unlock()
+	w.expired = true
+}
+
+// Closes is the number of Close calls seen so far.
+func (w *VerifWire) Closes() int {
+	w.mu.Lock()
+	defer w.mu.Unlock()
+	return w.closes
+}
+
+// Resets is the number of ResetTimer calls seen so far.
+func (w *VerifWire) Resets() int {
+	w.mu.Lock()
+	defer w.mu.Unlock()
+	return w.resets
+}
+
+var _ wire = (*VerifWire)(nil)
+
+// VerifPool wraps a real *pool whose makeFn is scripted by the harness.
+type VerifPool struct {
+	p    *pool
+	dead *VerifWire
+}
+
+// VerifNewPool builds a real pool. mk is the scripted dial: a nil result stands
+// for a failed dial and is turned into the pool's shared dead wire, exactly as
+// makeMux's wireFn does.
+func VerifNewPool(cap, minSize int, cleanup time.Duration, mk func(ctx context.Context) *VerifWire) *VerifPool {
+	dead := &VerifWire{ID: -1, err: ErrClosing}
+	vp := &VerifPool{dead: dead}
+	vp.p = newPool(cap, dead, cleanup, minSize, func(ctx context.Context) wire {
+		if w := mk(ctx); w != nil {
+			return w
+		}
+		return dead
+	})
+	return vp
+}
+
+// VerifHandle is a wire handed out by Acquire.
+type VerifHandle struct{ w wire }
+
+// Kind canonicalises the handed out wire: "w<id>" for a mock wire, "dead" for the
+// pool's shared dead wire, "ctxdead:<canceled|deadline|other>" for the dead pipe
+// made for a done context, "?" otherwise.
+func (h VerifHandle) Kind() string {
+	switch v := h.w.(type) {
+	case *VerifWire:
+		if v.ID < 0 {
+			return "dead"
+		}
+		return "w" + strconv.Itoa(v.ID)
+	case *pipe:
+		err := v.Error()
+		switch {
+		case errors.Is(err, context.Canceled):
+			return "ctxdead:canceled"
+		case errors.Is(err, context.DeadlineExceeded):
+			return "ctxdead:deadline"
+		case err != nil:
+			return "ctxdead:other"
+		}
+		return "pipe"
+	case nil:
+		return "nil"
+	}
+	return "?"
+}
+
+// Wire returns the mock wire behind the handle, or nil.
+func (h VerifHandle) Wire() *VerifWire {
+	if v, ok := h.w.(*VerifWire); ok && v.ID >= 0 {
+		return v
+	}
+	return nil
+}
+
+// Close calls Close on the handed out wire (what mux.blocking does on a failed command).
+func (h VerifHandle) Close() { h.w.Close() }
+
+func (vp *VerifPool) Acquire(ctx context.Context) VerifHandle { return VerifHandle{vp.p.Acquire(ctx)} }
+func (vp *VerifPool) Store(h VerifHandle)                     { vp.p.Store(h.w) }
+func (vp *VerifPool) Close()                                  { vp.p.Close() }
+
+// RemoveIdle runs the body of the cleanup timer.
+func (vp *VerifPool) RemoveIdle() { vp.p.removeIdleConns() }
+
+// VerifPoolSnap is the pool's state under its mutex.
+type VerifPoolSnap struct {
+	List    []int // ids of idle mock wires in slice order (-1 for anything else)
+	Size    int
+	Cap     int
+	MinSize int
+	Down    bool
+	TimerOn bool
+}
+
+func verifSnapPool(p *pool) VerifPoolSnap {
+	p.cond.L.Lock()
+	defer p.cond.L.Unlock()
+	s := VerifPoolSnap{Size: p.size, Cap: p.cap, MinSize: p.minSize, Down: p.down, TimerOn: p.timerOn}
+	for _, w := range p.list {
+		if v, ok := w.(*VerifWire); ok {
+			s.List = append(s.List, v.ID)
+		} else {
+			s.List = append(s.List, -1)
+		}
+	}
+	return s
+}
+
+func (vp *VerifPool) Snapshot() VerifPoolSnap { return verifSnapPool(vp.p) }
+
+// Waiters is the number of goroutines currently parked in cond.Wait of the pool
+// (read from sync.Cond's notify list: tickets handed out minus tickets notified).
+func (vp *VerifPool) Waiters() int { return verifCondWaiters(vp.p.cond) }
+
+func verifCondWaiters(c *sync.Cond) int {
+	n := reflect.ValueOf(c).Elem().FieldByName("notify")
+	wait := (*uint32)(unsafe.Pointer(n.FieldByName("wait").UnsafeAddr()))
+	notify := (*uint32)(unsafe.Pointer(n.FieldByName("notify").UnsafeAddr()))
+	// read notify first: wait only grows, so the difference never under-counts a parked waiter
+	nt := atomic.LoadUint32(notify)
+	wt := atomic.LoadUint32(wait)
+	return int(wt - nt)
+}
+
+// VerifClientPools returns the dedicated/blocking pool and the streaming pool
+// snapshots of a standalone client made by NewClient (nil, nil, false otherwise),
+// plus the number of goroutines parked in each pool's cond.Wait.
+func VerifClientPools(c Client) (dpool, spool VerifPoolSnap, dwait, swait int, ok bool) {
+	sc, ok1 := c.(*singleClient)
+	if !ok1 {
+		return
+	}
+	m, ok2 := sc.conn.(*mux)
+	if !ok2 {
+		return
+	}
+	return verifSnapPool(m.dpool), verifSnapPool(m.spool), verifCondWaiters(m.dpool.cond), verifCondWaiters(m.spool.cond), true
+}
